@@ -41,6 +41,18 @@ def fp(x):
         return repr([fp(x.subcircuits), fp(list(x.bases)), None if x.subobservables is None else fp(x.subobservables)])
     if hasattr(x, "quasi_dists"):
         return repr([dict(q) for q in x.quasi_dists])
+    # SamplerV2 result objects: their repr shows shapes only, the content is in the byte arrays of the registers
+    from qiskit.primitives import PrimitiveResult, PubResult, DataBin, BitArray
+    if isinstance(x, PrimitiveResult):
+        return repr(["PrimitiveResult", [fp(p) for p in x], repr(x.metadata)])
+    if isinstance(x, PubResult):
+        return repr(["PubResult", fp(x.data), repr(x.metadata)])
+    if isinstance(x, DataBin):
+        return repr(["DataBin", repr(x.shape), [(k, fp(v)) for k, v in x.items()]])
+    if isinstance(x, BitArray):
+        return repr(["BitArray", x.num_bits, fp(x.array)])
+    if isinstance(x, np.ndarray):
+        return repr(["ndarray", x.shape, x.dtype.str, x.tobytes().hex() if x.dtype != object else repr(x.tolist())])
     return repr(x)
 
 
@@ -161,14 +173,70 @@ def shared_classes(ina, outa, outall):
     return classes
 
 
-def audit(fn, args, keep):
-    """run fn(*args); returns (result, mutated?, {class: example})"""
+def placeholder_aliases(out, ina, keep):
+    """Aliasing between the cut placeholders INSIDE one returned value: [(what, path a, path b, op a, op b)] for every pair of
+    instruction slots whose placeholders belong to different cuts but are the same object, or hold the same basis object / map
+    list / coefficient list / per-qubit operation list.  Sharing that the caller's arguments already had (`ina`: ids reachable
+    from the arguments) is inherited, not created by the call, and is left out; the two halves of ONE cut (single-qubit
+    placeholders whose labels carry the same cut id) share their basis by design."""
+    from qiskit.circuit import QuantumCircuit
+    slots = []
+
+    def walk(x, path):
+        if isinstance(x, QuantumCircuit):
+            for k, i in enumerate(x.data):
+                if hasattr(i.operation, "basis") and hasattr(i.operation, "basis_id"):
+                    slots.append((path + ".data[%d].op" % k, i.operation))
+        elif isinstance(x, dict):
+            for k, v in x.items():
+                walk(v, path + "[%r]" % (k,))
+        elif isinstance(x, (list, tuple)):
+            for k, v in enumerate(x):
+                walk(v, path + "[%d]" % k)
+        elif hasattr(x, "subcircuits") and hasattr(x, "bases"):
+            walk(x.subcircuits, path + ".subcircuits")
+    walk(out, "out")
+
+    def cut_key(n, op):
+        if hasattr(op, "qubit_id"):  # one half of a cut: "<label>_<cut id>"
+            tail = str(op.label).rsplit("_", 1)[-1]
+            return ("half", tail) if tail.isdigit() else ("slot", n)
+        return ("slot", n)
+
+    def parts(op):
+        b = op.basis
+        ps = [("the placeholder object", op), ("the basis object", b), ("the list of maps", b.maps)]
+        if isinstance(b.coeffs, list):
+            ps.append(("the coefficient list", b.coeffs))
+        for a, m in enumerate(b.maps):
+            for s_, side in enumerate(m):
+                if isinstance(side, list):
+                    ps.append(("the operation list maps[%d][%d]" % (a, s_), side))
+        return ps
+    seen, hits = {}, []
+    for n, (path, op) in enumerate(slots):
+        keep.append(op)
+        ck = cut_key(n, op)
+        for what, o in parts(op):
+            keep.append(o)
+            if id(o) in ina:
+                continue
+            first = seen.setdefault(id(o), (ck, path, op, what))
+            if first[0] != ck:
+                hits.append((what, first[1], path, first[2], op))
+    return hits
+
+
+def audit(fn, args, keep, changed=None):
+    """run fn(*args); returns (result, mutated?, {class: example}); `changed`, if given, receives the indices of the modified arguments"""
     before = [fp(a) for a in args]
     ina = {}
     for k, a in enumerate(args):
         mutables(a, ina, keep, "arg%d" % k)
     out = fn(*args)
     after = [fp(a) for a in args]
+    if changed is not None:
+        changed.extend(k for k in range(len(args)) if before[k] != after[k])
     outa, outall = {}, {}
     mutables(out, outa, keep, "out", outall)
     classes = {c: v[:2] for c, v in shared_classes(ina, outa, outall).items()}
